@@ -145,6 +145,7 @@ struct St {
 	qb_loop_t *loop = NULL;
 	qb_ipcs_service_t *svc = NULL;
 	bool svc_destroyed = false, server_dead = false, server_started = false, server_finished = false, server_will_die = false;
+	int64_t server_death_ns = -1;     // virtual time at which the server process died
 	int server_spid = 0, hostile_spid = 0;
 	std::deque<Conn> conns;                 // stable addresses
 	std::map<qb_ipcs_connection_t *, Conn *> by_sc;
@@ -564,7 +565,7 @@ static void do_server_op(const Op &op, Conn *ctx)
 		break;
 	case K_S_DIE:
 		count(p_server_died);
-		G.server_dead = true;
+		G.server_dead = true; if (G.server_death_ns < 0) G.server_death_ns = now_ns();
 		for (size_t i = 0; i < G.conns.size(); i++) G.conns[i].server_gone = true;
 		proc_die();
 		break;
@@ -750,7 +751,10 @@ static void client_send(ClientSt &k, const Op &op, int mode)
 	size_t rcap = (size_t)c.max_msg + 64;
 	uint8_t *rbuf = NULL;
 	int fc_before = c.fc_changing ? 0 : c.fc; uint64_t fc_ch_before = c.fc_changes;
-	bool disc_before = k.saw_disconnect;
+	// "later calls fail immediately" is promised for a server that has died: the disconnect must have been reported AND the
+	// server must already have been dead when this call started (a live server that is half-way through dropping the
+	// connection can still take the request)
+	bool disc_before = k.saw_disconnect && G.server_dead;
 	int64_t w0 = task_blocked_ns();
 	if (mode == 0) r = qb_ipcc_send(k.cc, heap, m.len);
 	else {
@@ -824,11 +828,13 @@ static void client_recv(ClientSt &k, int dir, int32_t tmo)
 	if (tmo < 0 && !(G.server_dead || G.server_will_die)) tmo = 2500;
 	// plain qb_ipcc_recv(-1) is not promised to return after the server died (only sendv_recv and event_recv are)
 	if (tmo < 0 && dir == 1) tmo = 2500;
-	bool disc_before_recv = k.saw_disconnect;
+	bool disc_before_recv = k.saw_disconnect && G.server_dead;
 	// latency is what the call itself waited for; time during which this process simply was not scheduled does not count
-	int64_t t0 = task_blocked_ns();
+	int64_t t0 = task_blocked_ns(), n0 = now_ns();
 	ssize_t r = dir == 1 ? qb_ipcc_recv(k.cc, buf, cap, tmo) : qb_ipcc_event_recv(k.cc, buf, cap, tmo);
 	int64_t t1 = task_blocked_ns();
+	// how long the call went on after the server had died (it may have been waiting, legitimately, long before that)
+	int64_t after_death = G.server_dead ? std::min<int64_t>(t1 - t0, now_ns() - std::max<int64_t>(n0, G.server_death_ns)) : 0;
 	ev(445 + (uint32_t)dir, c.id, r);
 	client_note_result(k, r);
 	if (r >= 0) check_out_msg(k, dir, buf, r, dir == 1 ? "qb_ipcc_recv" : "qb_ipcc_event_recv");
@@ -838,8 +844,8 @@ static void client_recv(ClientSt &k, int dir, int32_t tmo)
 		VIOL(3, "client-call-overran-timeout", dir == 1 ? "qb_ipcc_recv" : "qb_ipcc_event_recv", "client %d: call with timeout %d ms took %lld ms of virtual time", k.idx, tmo, (long long)((t1 - t0) / 1000000));
 	if (which == 3 && dir == 2 && disc_before_recv && G.server_dead && r < 0 && t1 - t0 > 50 * 1000000LL)
 		VIOL(3, "late-failure-after-disconnect", "qb_ipcc_event_recv", "client %d: event_recv made after the disconnect had been reported waited %lld ms before failing", k.idx, (long long)((t1 - t0) / 1000000));
-	if (tmo < 0 && G.server_dead && dir == 2 && t1 - t0 > 2 * 2000 * 1000000LL + 1000 * 1000000LL)
-		VIOL(3, "client-wait-forever-not-bounded", "qb_ipcc_event_recv", "client %d: event_recv(-1) took %lld ms after the server died", k.idx, (long long)((t1 - t0) / 1000000));
+	if (tmo < 0 && G.server_dead && dir == 2 && after_death > 2 * 2000 * 1000000LL + 1000 * 1000000LL)
+		VIOL(3, "client-wait-forever-not-bounded", "qb_ipcc_event_recv", "client %d: event_recv(-1) went on for %lld ms after the server had died", k.idx, (long long)(after_death / 1000000));
 	free(buf);
 }
 
@@ -1160,7 +1166,7 @@ static void acc_hook(const void *, int, int, int, int, size_t)
 
 static void on_proc_death(int spid)
 {
-	if (spid == G.server_spid) { G.server_dead = true; count(p_server_died); for (size_t i = 0; i < G.conns.size(); i++) G.conns[i].server_gone = true; }
+	if (spid == G.server_spid) { G.server_dead = true; if (G.server_death_ns < 0) G.server_death_ns = now_ns(); count(p_server_died); for (size_t i = 0; i < G.conns.size(); i++) G.conns[i].server_gone = true; }
 	for (int k = 0; k < G.nclients; k++) if (G.cl[k].spid == spid) { G.cl[k].dead = true; count(p_client_died); if (G.cl[k].conn) G.cl[k].conn->client_gone = true; }
 	count(p_kill_fired);
 	// a process that died inside libqb leaves that library's static state (signal pipe, ...) behind in this OS process
